@@ -43,8 +43,8 @@ Definition RSYNC_PREFIX : list N := [114; 115; 121; 110; 99; 58; 47; 47].    (* 
 (* slice.split(|ch| ch == sep): never empty *)
 Fixpoint split_on (sep : N) (l cur : list N) : list (list N) :=
   match l with
-  | [] => [rev cur]
-  | x :: t => if x =? sep then rev cur :: split_on sep t [] else split_on sep t (x :: cur)
+  | [] => [rev_append cur []]
+  | x :: t => if x =? sep then rev_append cur [] :: split_on sep t [] else split_on sep t (x :: cur)
   end.
 
 Definition is_dot_segment (it : list N) : bool := bytes_eqb it [46] || bytes_eqb it [46; 46].
